@@ -421,6 +421,76 @@ def vvcBwdStopScalar : Prog :=
 def vvcBwdStopPol : Prog :=
   ⟨[.copy 0 0, .inplace opMul 0 []] ++ vvcBwdPol.body, 1⟩
 
+/-! ### `FourierFilter._operation` (behind `FresnelPropagator`, `AngularSpectrumPropagator`, the multi-scale
+coronagraphs; `hcipy/fourier/fourier_operations.py`) and the array it hands to its first FFT
+
+Objects are array objects here (a `Field` wrapper / an `ndarray` view), buffers are memory.  Without zero
+padding (`cutout is None`, q = 1) `f = field.shaped` is a *view* of the caller's array (`wrap`), and the first
+FFT must not overwrite it (`overwrite_x=False`: a new array, `newFrom`); with zero padding the values are
+copied into the filter's internal array first and the FFT runs in place.  Everything after the first FFT
+works on arrays the filter created itself. -/
+def opFft := 21
+def opIfft := 22
+def opCut := 23
+def opZeroPad := 24
+
+def fourierFilter (padded : Bool) : Prog :=
+  if padded then
+    ⟨[.newFrom 1 opZeroPad [0] 0,        -- f = internal_array; f[:] = 0; f[cutout] = field.shaped
+      .inplace opFft 1 [],           -- fftn(f, overwrite_x=True)
+      .newFrom 2 opMul [1] 1,        -- f = f * tf
+      .inplace opIfft 2 [],          -- ifftn(f, overwrite_x=True)
+      .newFrom 3 opCut [2] 0], 3⟩    -- res = f[cutout].reshape(...)
+  else
+    ⟨[.wrap 1 0,                     -- f = field.shaped
+      .newFrom 2 opFft [1] 0,        -- fftn(f, overwrite_x=False)
+      .newFrom 3 opMul [2] 2,
+      .inplace opIfft 3 [],
+      .wrap 4 3], 4⟩                 -- res = f.reshape(...)
+
+/-- How `field.astype(dtype, copy=False)` relates its result to its argument: the very same object (an
+old-style field — an `ndarray` subclass — that already has the dtype), a **new wrapper around the same
+buffer** (a new-style field that already has the dtype: `NewStyleField.astype` always builds a new `Field`
+around `data.astype(…, copy=False)`), or a converted private copy (the dtype differs). -/
+inductive Cast where
+  | same | wrapper | converted
+  deriving DecidableEq, Repr
+
+def castOf (newStyle sameDtype : Bool) : Cast :=
+  if !sameDtype then .converted else if newStyle then .wrapper else .same
+
+def castInstr (c : Cast) (d s : Var) : Instr :=
+  match c with
+  | .same => .bind d s
+  | .wrapper => .wrap d s
+  | .converted => .copy d s
+
+/-- **Defect class** (seeded C06-10): the field is cast with `astype(copy=False)` and *object identity*
+(`cast is not field`) decides whether the cast is a private copy that the first FFT may overwrite.  Right
+for `same` and `converted`, wrong for `wrapper`. -/
+def fourierFilterIdentityTestOld (c : Cast) (padded : Bool) : Prog :=
+  let isPrivate := c != .same
+  if padded then
+    ⟨castInstr c 9 0 :: [.newFrom 1 opZeroPad [9] 9, .inplace opFft 1 [], .newFrom 2 opMul [1] 1, .inplace opIfft 2 [],
+      .newFrom 3 opCut [2] 9], 3⟩
+  else if isPrivate then
+    ⟨castInstr c 9 0 :: [.wrap 1 9, .inplace opFft 1 [], .newFrom 3 opMul [1] 1, .inplace opIfft 3 [], .wrap 4 3], 4⟩
+  else
+    ⟨castInstr c 9 0 :: [.wrap 1 9, .newFrom 2 opFft [1] 9, .newFrom 3 opMul [2] 2, .inplace opIfft 3 [], .wrap 4 3], 4⟩
+
+/-- What the first Fourier transform of a program (first instruction with operation `opFft`) is given:
+(its argument uses the caller's buffer, it may overwrite its argument).  Computed on the concrete store. -/
+def firstFftFrom (sem : Nat → List Int → Int) : St → List Instr → Option (Bool × Bool)
+  | _, [] => none
+  | c, i :: rest =>
+    match i with
+    | .inplace op t _ => if op = opFft then some (bufOf c t == 0, true) else firstFftFrom sem (step sem c i) rest
+    | .newFrom _ op (x :: _) _ => if op = opFft then some (bufOf c x == 0, false) else firstFftFrom sem (step sem c i) rest
+    | _ => firstFftFrom sem (step sem c i) rest
+
+def firstFft (sem : Nat → List Int → Int) (p : Prog) (v : InVal) : Option (Bool × Bool) :=
+  firstFftFrom sem (init v) p.body
+
 /-- Every program shipped, by the name the harness uses. -/
 def programs : List (String × Prog) :=
   [("identity", identity), ("copyInplace", copyInplace), ("copyThenCopyInplace", copyThenCopyInplace),
@@ -432,7 +502,8 @@ def programs : List (String × Prog) :=
    ("multiscaleBwdStop", multiscaleBwdStop), ("vvcFwdScalar", vvcFwdScalar), ("vvcFwdPol", vvcFwdPol),
    ("vvcFwdScalarStop", vvcFwdScalarStop), ("vvcFwdPolStop", vvcFwdPolStop),
    ("vvcBwdScalar", vvcBwdScalar), ("vvcBwdPol", vvcBwdPol),
-   ("vvcBwdStopScalar", vvcBwdStopScalar), ("vvcBwdStopPol", vvcBwdStopPol)]
+   ("vvcBwdStopScalar", vvcBwdStopScalar), ("vvcBwdStopPol", vvcBwdStopPol),
+   ("fourierFilter[padded]", fourierFilter true), ("fourierFilter[unpadded]", fourierFilter false)]
 
 /-! ### The programs with a loop, for any number of rounds
 
